@@ -11,6 +11,7 @@ import Scico.Proofs.EstimNorms
 import Scico.Proofs.EstimConv
 import Scico.Proofs.EstimMat
 import Scico.Proofs.EstimZero
+import Scico.Proofs.EstimSource
 import Mathlib.Analysis.InnerProductSpace.Adjoint
 import Mathlib.Analysis.InnerProductSpace.Spectrum
 
@@ -757,6 +758,50 @@ theorem C17_padmm_est_zero (fac : Option ℝ) :
   ⟨padmmEst_zero fac, padmm_not_gt_zero⟩
 
 end zero
+
+/-! ### round 4: the data the model copies from the source (kept equal to it by `Generated/EstimTables.lean`) -/
+
+section source
+
+/-- **The `ord` tables.**  The model functions are the tables the translator reads from `_diag.py`: `diagKey` is the remapping
+    chain of `Diagonal.norm` (`None → 'fro'`, `-1,-2 → -inf`, `1,2 → inf`), an order is accepted iff its image is a key of
+    `ordfunc` (then the listed function of `|d|` is applied), and `ScaledIdentity.norm` is its if-chain
+    (`|c|√N`, `|c|N`, `|c|`, else `ValueError`). -/
+theorem C17_ord_tables (o : Ord) (d : List ℝ) (ac sN nN : ℝ) :
+    diagKey o = remapOrd diagRemap o ∧
+    ((diagOrdFunc.map (·.1)).contains (diagKey o) = false → diagNorm o d = .error "value") ∧
+    ((diagOrdFunc.map (·.1)).contains (diagKey o) = true → diagNorm o d = absNorm (diagKey o) (d.map HasAbs.abs)) ∧
+    scaledIdNorm o ac sN nN =
+      (match branchOf sidBranches o with
+      | some "snp.abs(scalar) * snp.sqrt(N)" => .ok (ac * sN)
+      | some "snp.abs(scalar) * N" => .ok (ac * nN)
+      | some "snp.abs(scalar)" => .ok ac
+      | _ => .error "value") :=
+  ⟨diagKey_eq_remap o, diagNorm_reject_of_not_key o d, diagNorm_of_key o d, scaledIdNorm_eq_branches o ac sN nN⟩
+
+/-- **The default arguments** (`ratio=1.0`, `factor=1.01`, read from the signatures): for every positive norm estimate `c` the
+    parameters returned *by default* satisfy `τσc² < 1`, `σ = τ`, `μ > c²`; `factor=None` is replaced by the literal `1.0`. -/
+theorem C17_default_parameters (fac ratio one : ℝ)
+    (hfac : (defaultOf estimSignatures "PDHG.estimate_parameters" "factor").bind PyLit.toReal = some fac)
+    (hratio : (defaultOf estimSignatures "PDHG.estimate_parameters" "ratio").bind PyLit.toReal = some ratio)
+    (hone : pdhgFactorNone.toReal = some one) (c : ℝ) (hc : 0 < c) :
+    (pdhgEst c ratio (some fac)).1 * (pdhgEst c ratio (some fac)).2 * c ^ 2 < 1 ∧
+    (pdhgEst c ratio (some fac)).2 = (pdhgEst c ratio (some fac)).1 ∧
+    c ^ 2 < (padmmEst c c (some fac)).1 ∧
+    pdhgEst c ratio none = pdhgEst c ratio (some one) := by
+  obtain ⟨h1, _, _, h4, h5, _, _⟩ := estimator_defaults
+  rw [h1] at hfac
+  rw [h4] at hratio
+  rw [h5] at hone
+  have hf : fac = 101 / 10 ^ 2 := (Option.some.inj hfac).symm
+  have hr : ratio = 1 := by rw [← Option.some.inj hratio]; norm_num
+  have ho : one = 1 := by rw [← Option.some.inj hone]; norm_num
+  subst hr; subst ho
+  have hf1 : 1 < fac := by rw [hf]; norm_num
+  obtain ⟨_, a, b, _, _⟩ := C17_pdhg_est c 1 fac hc one_pos hf1
+  refine ⟨a, by rw [b]; ring, (C17_padmm_est c c fac hc hc hf1).1, rfl⟩
+
+end source
 
 /-! ### non-vacuity -/
 
